@@ -17,7 +17,7 @@ func init() {
 	core.Register(&core.Spec{
 		ID: "C10", Level: "fault_enumeration",
 		Rule: "one case = one generated transaction (updates 1..3 existing tables in csv/tsv/json/jsonl/ltsv, creates 0..2, 0 rows .. ~200 KB) ; a tracing run lists every hook point hit from txcommit.begin to process exit and the process is then killed (SIGKILL to itself) at EVERY such (point,hit), each time on a fresh copy of the directory; " +
-			"thorough additionally walks every file-system syscall of the commit with strace kill-injection. non-trivial = the crash run really died by SIGKILL at that point; distinct = (transaction digest, crash point).",
+			"thorough (and the first three cases of quick) additionally walks every file-system syscall of the commit with strace kill-injection, and repeats the walk with the rename refused (EPERM). Every case ends with one of seven transactions whose new contents cannot be written in the table's format (JSON path, line break in a fixed-length cell, TAB / colon in LTSV, nothing to write): only the previous contents are admissible, at the normal end and at every crash point from txcommit.begin on. non-trivial = the crash run really died by SIGKILL at that point; distinct = (transaction digest, crash point).",
 		Quick: 12, Thorough: 400, FloorQuick: 200, FloorThorough: 6000, Workers: 16,
 		CaseTimeout: 20 * time.Minute,
 		Assumptions: []string{"crash = process death at hook-point (and, thorough, syscall) granularity; torn single write(2) calls and power-loss reordering of unsynced data are not produced (csvq never fsyncs; the property speaks of the process dying)",
